@@ -318,7 +318,7 @@ func RunDeadlineScenario(seed uint64, ver int, grace time.Duration) (viol string
 	if q := r.n(3); q < 2 {
 		ds[q].quiet = true
 	}
-	far := func() time.Time { return time.Now().Add(120 * time.Second) } // beyond the 90 s watchdog of finish()
+	far := farAway // the rig sets no deadline of its own (load.go)
 	hsDone := make(chan struct{})
 	var hsLeft atomic.Int32
 	hsLeft.Store(2)
@@ -388,6 +388,7 @@ func RunDeadlineScenario(seed uint64, ver int, grace time.Duration) (viol string
 						return
 					}
 					acked++
+					s.sent.Add(int64(len(chunk)))
 				}
 			})
 		}
@@ -433,6 +434,7 @@ func RunDeadlineScenario(seed uint64, ver int, grace time.Duration) (viol string
 						return
 					}
 					acked++
+					s.sent.Add(int64(len(chunk)))
 				}
 			})
 		}
@@ -451,6 +453,7 @@ func RunDeadlineScenario(seed uint64, ver int, grace time.Duration) (viol string
 				w.op.Store("between reads")
 				e2 := s.epoch.Load()
 				s.stream = append(s.stream, buf[:n]...)
+				s.rcvd.Add(int64(n))
 				if err == nil {
 					continue
 				}
@@ -614,6 +617,18 @@ func RunDeadlineScenario(seed uint64, ver int, grace time.Duration) (viol string
 					case <-sc.failed:
 					case <-sc.stop:
 					}
+				}
+				// let the peer drain first (the library gives close_notify 5 s of real time to get out)
+				w.op.Store("waiting for the peer to drain")
+				for peer.rcvd.Load() < s.sent.Load() {
+					select {
+					case <-peer.rdDone:
+					default:
+						if sc.sleep(200 * time.Microsecond) {
+							continue
+						}
+					}
+					break
 				}
 				w.op.Store("CloseWrite")
 				if err := s.conn.CloseWrite(); err != nil && !sc.over() {
